@@ -199,18 +199,6 @@ theorem count_lt_zero_nlv (m : MatrixModel) :
   generalize isBin01 m x = c
   cases a <;> cases b <;> cases c <;> decide
 
-/-- number of flagged columns = number of Hessian nonzeros, when no column index repeats -/
-theorem count_nlv_of_nodup (m : MatrixModel) (hn : m.Q.index.Nodup) (hr : ∀ c ∈ m.Q.index, c < m.n) :
-    (List.range m.n).countP (nlv m) = m.Q.index.length := by
-  rw [List.countP_eq_length_filter]
-  apply List.Perm.length_eq
-  rw [List.perm_ext_iff_of_nodup (List.Nodup.sublist List.filter_sublist List.nodup_range) hn]
-  intro a
-  simp only [List.mem_filter, List.mem_range, nlv, List.contains_iff_mem]
-  constructor
-  · exact fun h => h.2
-  · exact fun h => ⟨hr a h, h⟩
-
 theorem isInt_iff_key (m : MatrixModel) (j : Nat) :
     isInt m j = decide (key m j = -1 ∨ 1 ≤ key m j) := by
   rw [key_eq]
@@ -234,10 +222,8 @@ theorem key_range (m : MatrixModel) (j : Nat) :
   generalize isBin01 m j = c
   cases a <;> cases b <;> cases c <;> decide
 
-/-- with a duplicate-free, in-range Hessian column index list the reader's type-by-position decoding
-gives every caller column its own integrality -/
-theorem types_ok (m : MatrixModel) (text : Bool) (flags : Nat)
-    (hn : m.Q.index.Nodup) (hr : ∀ c ∈ m.Q.index, c < m.n) {j : Nat} (hj : j < m.n) :
+/-- the reader's type-by-position decoding gives every caller column its own integrality -/
+theorem types_ok (m : MatrixModel) (text : Bool) (flags : Nat) {j : Nat} (hj : j < m.n) :
     decodeIsInt (header m text flags) (vperm m j) = isInt m j := by
   obtain ⟨hA, hB⟩ := pos_bounds m hj
   have hB' : vperm m j < (List.range m.n).countP (fun i => decide (key m i < key m j + 1)) := by
@@ -251,7 +237,6 @@ theorem types_ok (m : MatrixModel) (text : Bool) (flags : Nat)
   have h1 := count_lt_one m
   have h0 := count_lt_zero_split m
   have hz := count_lt_zero_nlv m
-  have hq := count_nlv_of_nodup m hn hr
   have mono1 : (List.range m.n).countP (fun i => decide (key m i < -1)) ≤ (List.range m.n).countP (fun i => decide (key m i < 0)) :=
     List.countP_mono_left (by intro x _ h; simp only [decide_eq_true_eq] at *; omega)
   have mono2 : (List.range m.n).countP (fun i => decide (key m i < 0)) ≤ (List.range m.n).countP (fun i => decide (key m i < 1)) :=
@@ -259,7 +244,7 @@ theorem types_ok (m : MatrixModel) (text : Bool) (flags : Nat)
   have mono3 : (List.range m.n).countP (fun i => decide (key m i < 1)) ≤ (List.range m.n).countP (fun i => decide (key m i < 2)) :=
     List.countP_mono_left (by intro x _ h; simp only [decide_eq_true_eq] at *; omega)
   rw [Bool.eq_iff_iff, decodeIsInt_iff, isInt_iff_key, decide_eq_true_eq]
-  simp only [header, nlvo, Csr.nnz]
+  simp only [header, nlvo]
   rcases key_range m j with hk | hk | hk | hk | hk <;> rw [hk] at hA hB' ⊢ <;>
     simp only [Int.reduceAdd, Int.reduceNeg] at hB' <;> omega
 
